@@ -81,13 +81,13 @@ _CMP = {
 
 
 _SAFE_METHODS = {
-    "list": ("append", "insert", "extend", "index", "count", "copy", "pop", "sort", "reverse"),
-    "dict": ("items", "keys", "values", "get", "copy"),
+    "list": ("append", "insert", "extend", "index", "count", "copy", "pop", "sort", "reverse", "remove", "clear"),
+    "dict": ("items", "keys", "values", "get", "copy", "update", "setdefault", "pop", "clear"),
     "str": ("encode", "split", "rsplit", "startswith", "endswith", "strip", "join", "format", "lower", "upper", "replace", "count", "isascii", "isdigit", "isalpha", "isidentifier", "isprintable", "lstrip", "rstrip", "find", "rfind", "partition", "rpartition", "splitlines", "zfill"),
     "bytes": ("decode", "startswith", "endswith"),
     "tuple": ("index", "count"),
     "int": ("to_bytes", "bit_length"),
-    "set": ("add", "discard", "update", "union", "copy"),
+    "set": ("add", "discard", "update", "union", "copy", "issubset", "issuperset", "intersection", "difference", "remove"),
 }
 _PY_TYPES = {"int": int, "float": float, "str": str, "bytes": bytes, "list": list, "dict": dict, "tuple": tuple, "bool": bool, "bytearray": bytearray, "set": set}
 
@@ -188,6 +188,31 @@ class Evaluator:
 
     # expressions ---------------------------------------------------------------------------
     def ev(self, e: ast.AST) -> Any:
+        """Evaluate once: the argument expressions of the call being evaluated are memoised for the duration of that call,
+        so that the chain of special cases below (which may look at an argument before handing the call to a hook) never
+        evaluates an argument with side effects (a stream read, an iterator step) twice."""
+        st = self.__dict__.get("_memo")
+        if st is None:
+            st = self.__dict__["_memo"] = []
+        top = st[-1] if st else None
+        k = id(e)
+        if top is not None and k in top and top[k] is not _MISSING:
+            return top[k]
+        if isinstance(e, ast.Call):
+            frame = {id(a.value if isinstance(a, ast.Starred) else a): _MISSING for a in e.args}
+            frame.update({id(kw.value): _MISSING for kw in e.keywords})
+            st.append(frame)
+            try:
+                v = self._ev(e)
+            finally:
+                st.pop()
+        else:
+            v = self._ev(e)
+        if top is not None and k in top:
+            top[k] = v
+        return v
+
+    def _ev(self, e: ast.AST) -> Any:
         if isinstance(e, ast.Constant):
             return e.value
         if isinstance(e, ast.Name):
@@ -372,6 +397,13 @@ class Evaluator:
             return out
         if isinstance(e, ast.Lambda):
             return Closure(self, e)
+        if isinstance(e, (ast.DictComp, ast.SetComp)):
+            elt = ast.Tuple(elts=[e.key, e.value], ctx=ast.Load()) if isinstance(e, ast.DictComp) else e.elt
+            items = self.ev(ast.ListComp(elt=elt, generators=e.generators))
+            try:
+                return dict(items) if isinstance(e, ast.DictComp) else set(items)
+            except TypeError:
+                raise PyRaise("TypeError")
         if isinstance(e, (ast.GeneratorExp, ast.ListComp)) and len(e.generators) == 1 and isinstance(e.generators[0].target, ast.Name):
             g = e.generators[0]
             seq = self.ev(g.iter)
@@ -552,11 +584,13 @@ class Evaluator:
                 a = self.ev(e.args[1])
                 if isinstance(o, Record):
                     return a in o.fields or ("()" + str(a)) in o.fields
-            if isinstance(fn, ast.Name) and fn.id == "len" and len(e.args) == 1:
+            if isinstance(fn, ast.Name) and fn.id == "len" and len(e.args) == 1 and "len" not in self.env:
                 o = self.ev(e.args[0])
                 if isinstance(o, Record) and "__len__" in o.fields:
                     v = o.fields["__len__"]
                     return v() if callable(v) else v
+                if isinstance(o, PyIter) or (isinstance(o, (int, float, bool)) or o is None):
+                    raise PyRaise("TypeError")  # object of this type has no len()
             if self.call_hook is not None:
                 name = ast.unparse(fn)
                 args = self.ev_args(e)
@@ -573,6 +607,8 @@ class Evaluator:
                 args = self.ev_args(e)
                 kw = {k.arg: self.ev(k.value) for k in e.keywords if k.arg}
                 return callee.sa_call(args, kw)
+            if isinstance(callee, (PyIter, list, tuple, dict, set, frozenset, str, bytes, int, float)) and not isinstance(callee, Record):
+                raise PyRaise("TypeError")  # a value of this type is not callable
             raise Unsupported(f"call {ast.unparse(e)[:40]}")
         raise Unsupported(f"expression {type(e).__name__}")
 
